@@ -99,6 +99,48 @@ MUTANTS = [
     M("c05-pur-hidden-uses-U", "C05", (PR, "            torch.matmul(v, self.weights_W.data.t(), out=out)\n            .add_(self.hidden_bias.data)",
                                        "            torch.matmul(v, self.weights_W.data.t(), out=out)\n            .add_(self.hidden_bias.data.abs())")),
     M("c05-probability-temperature", "C05", (NS, "return (-self.rbm_am.effective_energy(v)).exp() / Z", "return (-1.02 * self.rbm_am.effective_energy(v)).exp() / Z")),
+    # ---- C06
+    M("c06-divide-by-pos-size", "C06", (NS, "grad[0] -= grad_model / float(neg_batch.shape[0])", "grad[0] -= grad_model / float(samples_batch.shape[0])")),
+    M("c06-neg-phase-added", "C06", (NS, "grad[0] -= grad_model / float(neg_batch.shape[0])", "grad[0] += grad_model / float(neg_batch.shape[0])")),
+    M("c06-neg-phase-on-phase-net", "C06", (NS, "        # No negative signal for the phase parameters\n        return grad",
+                                            "        if len(grad) > 1 and grad[1].shape == grad_model.shape:\n            grad[1] -= grad_model / float(neg_batch.shape[0])\n        return grad")),
+    M("c06-pointer-not-advanced", "C06", ("qucumber/utils/gradients_utils.py", "        pointer += num_param", "        pointer += num_param if num_param > 1 else 0")),
+    M("c06-networks-swapped", "C06", (NS, "vector_to_grads(all_grads[i], rbm.parameters())", "vector_to_grads(all_grads[len(self.networks) - 1 - i], rbm.parameters())")),
+    M("c06-scheduler-in-batch-loop", "C06", (NS, "                callbacks.on_batch_end(self, ep, b)\n                if self.stop_training:",
+                                             "                if scheduler is not None and b == 0 and num_batches > 1:\n                    scheduler.step()\n                callbacks.on_batch_end(self, ep, b)\n                if self.stop_training:")),
+    M("c06-step-twice", "C06", (NS, "                optimizer.step()  # tell the optimizer to apply the gradients",
+                                "                optimizer.step()  # tell the optimizer to apply the gradients\n                if b == 1:\n                    optimizer.step()")),
+    M("c06-k-plus-one-when-neg-differs", "C06", (NS, "        vk = self.rbm_am.gibbs_steps(k, neg_batch)", "        vk = self.rbm_am.gibbs_steps(k + (neg_batch.shape[0] != samples_batch.shape[0]), neg_batch)")),
+    M("c06-vk-replaced-by-start", "C06", (NS, "        grad_model = self.rbm_am.effective_energy_gradient(vk)", "        grad_model = self.rbm_am.effective_energy_gradient(neg_batch if k == 1 else vk)")),
+    # ---- C07
+    M("c07-second-randperm-for-bases", "C07", (NS, "shuffled_pos_bases = input_bases[pos_batch_perm.numpy()]", "shuffled_pos_bases = input_bases[torch.randperm(train_samples.shape[0]).numpy()]")),
+    M("c07-tail-dropped", "C07", (NS, "for batch_start in range(0, len(shuffled_pos_samples), pos_batch_size)\n        ]",
+                                  "for batch_start in range(0, max(1, len(shuffled_pos_samples) - pos_batch_size + 1), pos_batch_size)\n        ]")),
+    M("c07-neg-from-all-rows", "C07", (NS, "            shuffled_neg_samples = z_samples[neg_batch_perm]", "            shuffled_neg_samples = train_samples[neg_batch_perm % train_samples.shape[0]]")),
+    M("c07-data-aliased-and-mutated", "C07", (NS, "                data.clone().detach().to(device=self.device, dtype=torch.double)\n            )",
+                                              "                data.detach().to(device=self.device, dtype=torch.double)\n            )\n            train_samples.clamp_(0.0, 0.999)")),
+    M("c07-refbasis-any", "C07", ("qucumber/utils/data.py", "        .all(dim=1)", "        .any(dim=1)")),
+    M("c07-f10-regression", "C07", (NS, "shuffled_pos_bases = input_bases[pos_batch_perm.numpy()]", "shuffled_pos_bases = input_bases[pos_batch_perm]")),
+    M("c07-numbatches-floor", "C07", (NS, "num_batches = ceil(train_samples.shape[0] / pos_batch_size)", "num_batches = max(1, train_samples.shape[0] // pos_batch_size)")),
+    M("c07-perm-with-replacement", "C07", (NS, "pos_batch_perm = torch.randperm(train_samples.shape[0])", "pos_batch_perm = torch.randint(train_samples.shape[0], (train_samples.shape[0],))")),
+    M("c07-neg-size-pos", "C07", (NS, "            neg_batch_perm = torch.randint(\n                z_samples.shape[0],\n                size=(num_batches * neg_batch_size,),",
+                                  "            neg_batch_perm = torch.randint(\n                z_samples.shape[0],\n                size=(num_batches * pos_batch_size,),")),
+    # ---- C12
+    M("c12-break-before-batch-end", "C12", (NS, "                callbacks.on_batch_end(self, ep, b)\n                if self.stop_training:  # check for stop_training signal\n                    break",
+                                            "                if self.stop_training:  # check for stop_training signal\n                    break\n                callbacks.on_batch_end(self, ep, b)")),
+    M("c12-epoch-end-skipped-on-stop", "C12", (NS, "            callbacks.on_epoch_end(self, ep)\n            if self.stop_training:  # check for stop_training signal\n                break",
+                                               "            if self.stop_training:  # check for stop_training signal\n                break\n            callbacks.on_epoch_end(self, ep)")),
+    M("c12-range-excludes-last", "C12", (NS, "range(starting_epoch, epochs + 1), desc=", "range(starting_epoch, max(epochs, starting_epoch + 1) if epochs >= starting_epoch else epochs + 1), desc=")),
+    M("c12-train-end-only-if-not-stopped", "C12", (NS, "        callbacks.on_train_end(self)", "        if not (self.stop_training and ep == starting_epoch and num_batches > 1):\n            callbacks.on_train_end(self)")),
+    M("c12-reverse-dispatch-one-event", "C12", ("qucumber/callbacks/callback_list.py", "    def on_epoch_end(self, rbm, epoch):\n        for cb in self.callbacks:", "    def on_epoch_end(self, rbm, epoch):\n        for cb in reversed(self.callbacks):")),
+    M("c12-step-after-batch-end", "C12", (NS, "                optimizer.step()  # tell the optimizer to apply the gradients\n\n                callbacks.on_batch_end(self, ep, b)",
+                                          "                callbacks.on_batch_end(self, ep, b)\n                optimizer.step()  # tell the optimizer to apply the gradients\n")),
+    M("c12-stop-reset-at-end", "C12", (NS, "        callbacks.on_train_end(self)", "        callbacks.on_train_end(self)\n        self._stop_training = False")),
+    M("c12-no-early-return", "C12", (NS, "        if self.stop_training:  # terminate immediately if stop_training is true\n            return", "        if self.stop_training and epochs < 0:  # terminate immediately if stop_training is true\n            return")),
+    M("c12-inner-break-only", "C12", (NS, "            callbacks.on_epoch_end(self, ep)\n            if self.stop_training:  # check for stop_training signal\n                break", "            callbacks.on_epoch_end(self, ep)")),
+    M("c12-timer-swallows-stop", "C12", ("qucumber/callbacks/timer.py", "    def on_epoch_end(self, nn_state, epoch):\n        if nn_state.stop_training:", "    def on_epoch_end(self, nn_state, epoch):\n        if nn_state.stop_training and epoch > 1:\n            nn_state._stop_training = False\n        if nn_state.stop_training:")),
 ]
 
-BENIGN = []
+BENIGN = [
+    M("benign-no-zero-grad", ["C06", "C12"], (NS, "                optimizer.zero_grad()  # clear any cached gradients\n", "")),
+]
